@@ -59,6 +59,7 @@ type c20Case struct {
 	WDelay  int // ms to sleep before the first socket write (the process being descheduled)
 	Timeout int // seconds, as configured (default 3)
 	Timing  bool
+	Prefail int // logins attempted earlier in the same process while the agent's socket did not exist (a long-lived application)
 }
 
 type c20Obs struct {
@@ -75,6 +76,7 @@ type c20Out struct {
 	ElapsedMs                                        int
 	AuthtokSet                                       int
 	Overwait                                         int // selects entered after more than twice the timeout had been waited (signal storm cases)
+	Prefail, PrefailOK, LeakedPre, LeakedCase        int // earlier unreachable-agent logins in the process: run, reported as success; descriptors left open by them / by the case
 	Finished                                         bool
 }
 
@@ -235,6 +237,10 @@ func c20Cases(rng *rand.Rand, encoderOnly bool) []c20Case {
 	for _, k := range []string{"missing", "regular-file", "too-long", "directory"} {
 		add("unreachable", c20Case{User: []byte("alice"), Pw: []byte("secret"), Script: c20Script{Name: k, NoListener: k}})
 	}
+	// E2: the application has lived through an outage: more failed logins (agent socket missing) than FD_SETSIZE, then the agent is back
+	add("after-outage", c20Case{User: []byte("alice"), Pw: []byte("secret"), Prefail: 1100, Script: okReply})
+	add("after-outage", c20Case{User: []byte("alice"), Pw: []byte("secret"), Prefail: 1100, Opts: []string{"debug", "try_first_pass"}, Script: noReply})
+	add("after-outage", c20Case{User: fill(256, false), Pw: fill(256, false), Prefail: 1300, Script: c20Script{Name: "close-before-read", Read: "none", CloseEarly: "before-read"}})
 	// F: timing on both sides of the timeout (timeout=1)
 	for _, d := range []int{200, 400} {
 		add("timing-inside", c20Case{User: []byte("alice"), Pw: []byte("secret"), Timeout: 1, Timing: true, Opts: []string{"try_first_pass", "timeout=1"}, Script: c20Script{Name: fmt.Sprintf("ok-after-%dms", d), Reply: full, DelayMs: d}})
@@ -430,7 +436,7 @@ func c20(encoderOnly bool) {
 			if c.User != nil {
 				u = hex.EncodeToString(c.User)
 			}
-			fmt.Fprintf(&sb, "%s\t%s\t%s\t%s\t%s\t%s\t%d\t%d\t%d\t%d\t%d\n", c.ID, u, hex.EncodeToString(c.Pw), c.PwSrc, strings.Join(c.Opts, ","), sockOf[c.ID], c.Wcap, c.Rcap, c.Eintr, c.WDelay, map[bool]int{true: c.Errno0, false: -1}[c.Errno0 > 0])
+			fmt.Fprintf(&sb, "%s\t%s\t%s\t%s\t%s\t%s\t%d\t%d\t%d\t%d\t%d\t%d\n", c.ID, u, hex.EncodeToString(c.Pw), c.PwSrc, strings.Join(c.Opts, ","), sockOf[c.ID], c.Wcap, c.Rcap, c.Eintr, c.WDelay, map[bool]int{true: c.Errno0, false: -1}[c.Errno0 > 0], map[bool]int{true: 0, false: c.Prefail}[valgrind])
 		}
 		os.WriteFile(f, []byte(sb.String()), 0600) //nolint:errcheck
 		cmd := exec.Command("timeout", "-s", "KILL", "120", pamh, f)
@@ -481,6 +487,12 @@ func c20(encoderOnly bool) {
 				o.AuthtokSet, _ = strconv.Atoi(f[10])
 				if len(f) >= 12 {
 					o.Overwait, _ = strconv.Atoi(f[11])
+				}
+				if len(f) >= 16 {
+					o.Prefail, _ = strconv.Atoi(f[12])
+					o.PrefailOK, _ = strconv.Atoi(f[13])
+					o.LeakedPre, _ = strconv.Atoi(f[14])
+					o.LeakedCase, _ = strconv.Atoi(f[15])
 				}
 				last = ""
 			}
@@ -622,6 +634,17 @@ func c20(encoderOnly bool) {
 				}
 				R.Count("encoder_comparisons", 1)
 			}
+		}
+		// a long-lived application: the earlier logins without a reachable agent
+		if o.Prefail > 0 {
+			R.Count("earlier_unreachable_logins_in_process", o.Prefail)
+			R.Count("cases_after_many_unreachable_logins", 1)
+			if o.PrefailOK > 0 {
+				R.Violate(pfx+":success-without-reachable-agent", fmt.Sprintf("%d of %d logins succeeded although the agent's socket does not exist", o.PrefailOK, o.Prefail), c.ID, wit)
+			}
+		}
+		if o.LeakedPre > 0 || o.LeakedCase > 0 {
+			R.Count("descriptors_left_open_by_the_module", o.LeakedPre+o.LeakedCase) // evidence only: decided by the sanitizers once the numbers reach FD_SETSIZE
 		}
 		// bounded time, logically
 		transferred := len(so.Request) + so.SentBytes
